@@ -123,11 +123,11 @@ type Machine struct {
 	KnownReg map[expr.Key]bool
 	KnownMem map[uint64]bool
 	// Narrow: registers supplied by the provider at less than 8 bytes and not written since.
-	Narrow map[expr.Key]int
+	Narrow  map[expr.Key]int
 	SelfMod bool
 	// LastRegWrites lists the register keys written by the last step.
 	LastRegWrites []expr.Key
-	tainted bool
+	tainted       bool
 }
 
 // New builds the machine on an existing code model (which may have been
